@@ -39,18 +39,38 @@ fn t_frame_lookups() { body_frame_lookups(state_t(3)); }
 // full traversals both ways are covered by q_it_* (fingerprint compared there); clone by q_op_clone.
 
 // ---- Debug formatting: only calls iter() -------------------------------------------------------------
-pub struct Sink(pub usize);
-impl std::fmt::Write for Sink { fn write_str(&mut self, s: &str) -> std::fmt::Result { self.0 += s.len(); Ok(()) } }
+pub struct Sink { pub n: usize, pub buf: [u8; 16] }
+impl std::fmt::Write for Sink {
+    fn write_str(&mut self, s: &str) -> std::fmt::Result {
+        let b = s.as_bytes();
+        let mut i = 0;
+        while i < b.len() { if self.n < 16 { self.buf[self.n] = b[i]; } self.n += 1; i += 1; }
+        Ok(())
+    }
+}
 impl std::fmt::Debug for SV { fn fmt(&self, f: &mut std::fmt::Formatter<'_>) -> std::fmt::Result { f.write_str("v") } }
+/// key type with a one-character Debug form (number formatting is needlessly expensive for CBMC)
+#[derive(PartialEq, Eq, Hash)]
+pub struct DK(pub u8);
+impl HeapSize for DK { fn heap_size(&self) -> usize { 0 } }
+impl std::fmt::Debug for DK { fn fmt(&self, f: &mut std::fmt::Formatter<'_>) -> std::fmt::Result { f.write_str(if self.0 == 0 { "a" } else { "b" }) } }
 #[kani::proof]
-#[kani::unwind(6)]
+#[kani::unwind(18)]
 fn t_frame_debug() {
     use std::fmt::Write;
-    let c = prebuilt(1, 2);
-    let fp = fingerprint(&c);
-    let mut s = Sink(0);
+    let mut c: LruCache<DK, SV, BH> = LruCache::with_capacity_and_hasher(usize::MAX / 2, 2, BH::default());
+    link_new(&mut c, UnhingedEntry::new(DK(0), SV(1)));
+    link_new(&mut c, UnhingedEntry::new(DK(1), SV(1)));
+    c.touch(&DK(0));                  // order is now b, a
+    let seal_before = (c.seal.get().prev, c.seal.get().next, c.current_size);
+    let mut s = Sink { n: 0, buf: [0; 16] };
     let _ = write!(s, "{:?}", c);
-    assert!(fingerprint(&c) == fp, "Debug formatting wrote to the cache");
+    assert!((c.seal.get().prev, c.seal.get().next, c.current_size) == seal_before, "Debug formatting wrote to the cache");
+    // Debug output lists the entries in the order of iteration: least- to most-recently-used
+    let expect = b"{b: v, a: v}";
+    assert!(s.n == expect.len());
+    let mut i = 0;
+    while i < expect.len() { assert!(s.buf[i] == expect[i], "Debug output is not in LRU -> MRU order"); i += 1; }
 }
 
 // ---- frame contracts (thorough): empty modifies set, every write instruction checked -----------------
